@@ -102,6 +102,41 @@ def h_text_roundtrip(S, B):
     S.observe("fields", (proto, u.object if proto != "PYROMETA" else None, u.host, u.port, u.sockname))
 
 
+def h_nameserver_leg(S, B):
+    """a URI registered in the name server as text designates the same object and location when it is looked up"""
+    from Pyro5 import nameserver
+    prefix = S.choice("prefix", B["PREFIXES"])
+    rest = S.str("rest", B["L"])
+    s = prefix + rest
+    config.NS_PORT = 9090
+    u, why = parse(S, s)
+    if u is None:
+        S.cover("ns:rejected")
+        return
+    ns = nameserver.NameServer(nameserver.MemoryStorage())
+    failed = None
+    try:
+        ns.register("some.name", s)
+        stored = ns.storage["some.name"][0]
+    except Exception as x:
+        failed = type(x).__name__
+    S.cover("ns:accepted")
+    S.check("name-server-accepts-every-uri-text-the-parser-accepts", failed is None)
+    if failed is None:
+        if S.must(eq(stored, s)):
+            S.cover("ns:stored-unchanged")      # lookup parses the very text that was registered
+        else:
+            # the server keeps some other text: it must still designate the same object and location
+            S.check("looked-up-uri-equals-the-registered-one", ns.lookup("some.name") == u)
+    S.observe("ns", failed)
+
+
+def eq_opt(a, b):
+    if a is None or b is None:
+        return a is None and b is None
+    return eq(a, b)
+
+
 def mk_uri(S, tag, B):
     proto = S.choice(tag + ".protocol", ["PYRO", "PYRONAME"])
     obj = S.str(tag + ".object", B["LO"], 1, B["ALPHA"])
@@ -148,6 +183,11 @@ def eq_bool(x, y):
 ASCII_NAME = [(0x30, 0x39), (0x41, 0x5A), (0x61, 0x7A), (0x2E, 0x2E), (0x2D, 0x2D)]
 
 SPECS = [
+    Spec("nameserver_leg", h_nameserver_leg,
+         {"quick": {"L": 5, "PREFIXES": ["PYRO:o@", "PYRONAME:o@", "PYRO:"]}, "thorough": {"L": 7, "PREFIXES": ["PYRO:o@", "PYRONAME:o@", "PYRO:", "PYRONAME:"]}},
+         covers=["ns:accepted", "ns:rejected", "ns:stored-unchanged"],
+         native_patch=env.native_env,
+         desc="a URI text (listed prefix + up to L arbitrary code points) registered in a NameServer: accepted iff the parser accepts it, and what the server keeps is that text itself or designates an equal URI"),
     Spec("text_roundtrip", h_text_roundtrip,
          {"quick": {"L": 7, "PREFIXES": ["PYRO:", "pyro:", "PYRONAME:", "PyroName:", "PYROMETA:", "PYROx:", "PYR", ""]},
           "thorough": {"L": 10, "PREFIXES": ["PYRO:", "pyro:", "PYRONAME:", "PyroName:", "PYROMETA:", "pyrometa:", "PYROx:", "PYR", ""]}},
